@@ -1,11 +1,12 @@
 (* C11 — Effects run exactly once, outside the reducer context.
    Statements only; proofs in WorldRegistry.v, WorldStop.v.
-   C11_partial: proved are the creation of exactly one worker per effect handed to the pool, that
-   the worker's first step runs it (in its own context), and that nothing runs after stop() has
-   returned. "Exactly once over the whole history" and "reduced once, after its producer" for
-   Effect::Action are decided by engine L and the C11 monitor. Effects of backlog actions whose
+   Proved: exactly one fresh worker per effect handed to the pool; the worker's first step runs
+   the effect, in its own context; over whole histories no worker ever runs an effect twice
+   (C11_at_most_once, every schedule); nothing runs after stop() has returned.
+   C11_partial: "reduced once, after its producer" for Effect::Action and "every effect of an
+   action accepted before stop()" are decided by engine L and the C11 monitor. Effects of backlog actions whose
    effect phase runs after stop() took the pool are skipped: known finding F4. *)
-From RS Require Import Base Channel Pipeline Script World Hist WorldProofs WorldInv WorldQueue WorldStop WorldRegistry.
+From RS Require Import Base Channel Pipeline Script World Hist WorldProofs WorldInv WorldQueue WorldStop WorldRegistry WorldEffects.
 
 Section C11.
 Context {State : Type}.
@@ -29,6 +30,13 @@ Proof. exact worker_start_runs_effect. Qed.
    look at the workers - its enabledness and result depend only on its own program counter, the
    queue, the registries and the SUBS/CTX locks (step_reducer has no access to worker pcs except
    through subs_free / chan_thread_finished, which ignore pool workers) *)
+(* at most once: in every reachable world, whatever thread one looks at, it has logged at most one
+   effect run - together with C11_spawn (one fresh worker per effect) and C11_worker_runs (its
+   first step runs it): every spawned effect runs exactly once as soon as its worker has started *)
+Theorem C11_at_most_once : forall reducers mws progs w t0, (length progs <= 100)%nat ->
+  reachable cfg reducers mws progs w -> (runs t0 (w_hist w) <= 1)%N.
+Proof. intros. eapply effect_runs_at_most_once; eauto. Qed.
+
 Theorem C11_nothing_after_stop : forall sched (w w' : world (State := State)),
   stopped w -> run cfg w sched = Some w' ->
   louds (w_hist w') = louds (w_hist w).
@@ -37,4 +45,5 @@ End C11.
 
 Print Assumptions C11_spawn.
 Print Assumptions C11_worker_runs.
+Print Assumptions C11_at_most_once.
 Print Assumptions C11_nothing_after_stop.
